@@ -82,6 +82,7 @@ type Op struct {
 	S      int    `json:"s"`
 	Filter bool   `json:"filter"`
 	Count  int    `json:"count"`
+	Cancel bool   `json:"cancel"`
 	Batch  []Item `json:"batch"`
 }
 
@@ -169,6 +170,9 @@ type faultyEngine struct {
 	xkv.DB
 	armed atomic.Bool
 	fired atomic.Int64
+	// onCommit, when set, is called once right after the next successful commit of a transaction
+	// that wrote a user key (used to cancel the writing call's own context at that very moment)
+	onCommit atomic.Pointer[func()]
 }
 
 func (e *faultyEngine) OpenTx() xkv.Tx { return &faultyTx{Tx: e.DB.OpenTx(), eng: e} }
@@ -202,7 +206,13 @@ func (t *faultyTx) Commit(ctx context.Context, opts ...any) error {
 		t.eng.fired.Add(1)
 		return errors.New("verif: injected commit failure")
 	}
-	return t.Tx.Commit(ctx, opts...)
+	err := t.Tx.Commit(ctx, opts...)
+	if err == nil && t.touched {
+		if f := t.eng.onCommit.Swap(nil); f != nil {
+			(*f)()
+		}
+	}
+	return err
 }
 
 // ---- subscribers
@@ -612,14 +622,31 @@ func (c *Cluster) Step(o Op) (rc int) {
 			return 0
 		}
 		var err error
+		// "cancel": the call runs under its own context, which the caller cancels as soon as the
+		// call has returned (ctx, cancel := ...; Set(ctx, ...); cancel()). It must not matter.
+		ctx, cancel := c.ctx, context.CancelFunc(func() {})
+		if o.Cancel {
+			ctx, cancel = context.WithCancel(c.ctx)
+			c.anyStall = true // observer waits become soft: a lost notification shows in the dumps
+			// the context is cancelled the moment the storage commit of this write completes (a
+			// deadline firing while the call is finishing), and again right after the call returned
+			f := func() { cancel() }
+			for _, k := range c.keys {
+				c.nodes[k].faulty.onCommit.Store(&f)
+			}
+		}
 		if o.Op == "write" {
 			if o.Lease != 0 {
-				err = n.db.Set(c.ctx, KeyBytes(o.K), valBytes(o.V), node.Key(o.Lease))
+				err = n.db.Set(ctx, KeyBytes(o.K), valBytes(o.V), node.Key(o.Lease))
 			} else {
-				err = n.db.Set(c.ctx, KeyBytes(o.K), valBytes(o.V))
+				err = n.db.Set(ctx, KeyBytes(o.K), valBytes(o.V))
 			}
 		} else {
-			err = n.db.Delete(c.ctx, KeyBytes(o.K))
+			err = n.db.Delete(ctx, KeyBytes(o.K))
+		}
+		cancel()
+		for _, k := range c.keys {
+			c.nodes[k].faulty.onCommit.Store(nil)
 		}
 		c.barrierAll()
 		if err == nil {
